@@ -3,6 +3,9 @@ import FimVerif.Proofs.Lemmas.C08Sep
 import FimVerif.Proofs.Lemmas.C08Api
 import FimVerif.Proofs.Lemmas.C08Handle
 import FimVerif.Proofs.Lemmas.C08Spec
+import FimVerif.Proofs.Lemmas.C08Owned
+import FimVerif.Proofs.Lemmas.C08Ports
+import FimVerif.Proofs.Lemmas.C08Shared
 /-!
 # C08 — removal and disconnection delete exactly the owned structure and nothing else
 
@@ -19,7 +22,7 @@ inductive Op
   | removeComponent (c : Nat) | removeNs (s : Nat) | removeLink (l : Nat)
   | disconnect (h : List Nat) (i : Nat) | unpeer (ha hb : List Nat) | removeChild (h : List Nat) (p c : Nat)
   | prune (nodes comps nss ifs : List Nat)
-  | gRemoveCp (x : Nat) (dp : Bool) | gRemoveComp (x : Nat) | gRemoveNode (x : Nat)
+  | gRemoveCp (x : Nat) (dp : Bool) | gRemoveNs (x : Nat) | gRemoveComp (x : Nat) | gRemoveNode (x : Nat) | gRemoveLink (x : Nat)
 
 /-- the effect of an operation on the model graph -/
 def Op.run : Op → G → Except Err G
@@ -27,13 +30,15 @@ def Op.run : Op → G → Except Err G
   | .removeFacility n, g => removeFacilityApi g n
   | .removeSwitch n, g => removeSwitchApi g n
   | .removeComponent c, g => removeComponentApi g c
-  | .removeNs s, g => Remove.removeNs g s
-  | .removeLink l, g => removeLinkG g l
+  | .removeNs s, g => removeNsApi g s
+  | .removeLink l, g => removeLinkApi g l
   | .disconnect h i, g => (Remove.disconnect g h i).map (·.1)
   | .unpeer ha hb, g => (Remove.unpeer g ha hb).map (·.1)
   | .removeChild h p c, g => (Remove.removeChild g h p c).map (·.1)
   | .prune ns cs ss is, g => Remove.prune g ns cs ss is
   | .gRemoveCp x dp, g => removeCp g x dp
+  | .gRemoveNs x, g => Remove.removeNs g x
+  | .gRemoveLink x, g => removeLinkG g x
   | .gRemoveComp x, g => removeComp g x
   | .gRemoveNode x, g => removeNodeG g x
 
@@ -50,8 +55,10 @@ theorem remove_frame (op : Op) (g g' : G) (h : op.run g = .ok g') :
     case removeFacility n => exact removeFacilityApi_shrinks _ _ _ h
     case removeSwitch n => exact removeSwitchApi_shrinks _ _ _ h
     case removeComponent c => exact removeComponentApi_shrinks _ _ _ h
-    case removeNs s => exact removeNs_shrinks _ _ _ h
-    case removeLink l => exact removeLinkG_shrinks _ _ _ h
+    case removeNs s => exact removeNsApi_shrinks _ _ _ h
+    case removeLink l => exact removeLinkApi_shrinks _ _ _ h
+    case gRemoveNs s => exact removeNs_shrinks _ _ _ h
+    case gRemoveLink l => exact removeLinkG_shrinks _ _ _ h
     case disconnect hl i =>
       obtain ⟨r, hr, rfl⟩ := map_ok h
       obtain ⟨r', hr', rfl⟩ := map_ok hr
@@ -71,8 +78,8 @@ theorem deleteAll_minus (g : G) (L : List Nat) (hp : ∀ x ∈ L, g.has x = true
 
 example : deleteAll ⟨[⟨1, .cp, 0, ""⟩, ⟨2, .link, 0, ""⟩], [⟨1, 2, .connects, ""⟩]⟩ [2] = .ok ⟨[⟨1, .cp, 0, ""⟩], []⟩ := by rfl
 
-/-- `Topology.remove_link`: the link element goes, nothing else -/
-theorem removeLink_exact (g : G) (l : Nat) (h : g.cls? l = some .link) :
+/-- `remove_network_link` (graph level): the link element goes, nothing else -/
+theorem removeLinkG_exact (g : G) (l : Nat) (h : g.cls? l = some .link) :
     removeLinkG g l = .ok (g.minus [l]) := by
   simp [removeLinkG, h]
 
@@ -170,6 +177,18 @@ theorem removeSwitchApi_exact (g : G) (n : Nat) (hk : (g.cls? n == some .node &&
 theorem removeComponentApi_exact (g : G) (c : Nat) (h : SepCompApi g c = true) :
     removeComponentApi g c = .ok (g.minus (compApiDel g c)) := removeComponentApi_closed g c h
 
+/-- **`Topology.remove_network_service` / `Node.remove_network_service`** (after the repairs d80830f / 5701144) -/
+theorem removeNsApi_exact (g : G) (s : Nat) (h : SepNsApi g s = true) :
+    removeNsApi g s = .ok (g.minus (nsApiDel g s)) := removeNsApi_closed g s h
+
+/-- **`Topology.remove_link`** (after the repair 4df540a): the link and the ServicePorts it peered -/
+theorem removeLink_exact (g : G) (l : Nat) (hc : g.cls? l = some .link) (h : SepSeq g [l] (spEnds g l) = true) :
+    removeLinkApi g l = .ok (g.minus (linkApiDel g l)) := removeLinkApi_closed g l hc h
+
+example : SepNsApi exG 12 = true := by decide
+example : SepNsApi exG 20 = true := by decide
+example : SepSeq exG [30] (spEnds exG 30) = true ∧ linkApiDel exG 30 = [30, 21, 30] := by decide
+
 example : SepNodeApi exG 10 = true := by decide
 example : nodeApiDel exG 10 = [21, 30, 11, 12, 13, 15, 14, 30, 10] := by decide
 example : SepCompApi exG 11 = true := by decide
@@ -187,12 +206,13 @@ theorem handle_fresh_disconnect (g : G) (h : List Nat) (s i : Nat) (g' : G) (h' 
     (hh : ∀ y, y ∈ h ↔ y ∈ freshIfs g s) :
     ∀ y, y ∈ h' ↔ y ∈ freshIfs g' s := disconnect_fresh g h s i g' h' hrun hshape hh
 
-/-- **handle_fresh (`remove_child_interface`)** — holds since the repair 5785808 (the list used to keep the removed child) -/
-theorem handle_fresh_removeChild (g : G) (h : List Nat) (p c : Nat) (g' : G) (h' : List Nat)
-    (hrun : removeChild g h p c = .ok (g', h'))
-    (hp : (cpDel g c false).contains p = false)
+/-- **handle_fresh (`remove_child_interface`)** — holds since the repairs 5785808 / 37318e4 -/
+theorem handle_fresh_removeChild (g : G) (h : List Nat) (p c : Nat) (hk : g.kind? p = some kDedicatedPort) (hc : g.has c = true)
+    (h1 : SepDiscSeq g [] (deepIfs g [c]) = true) (h2 : Sep g ((deepIfs g [c]).flatMap (discDel g)) c false = true)
+    (hp : (childDel g c).contains p = false) (hD : ∀ y ∈ freshIfs g p, y ∈ childDel g c ↔ y = c)
     (hh : ∀ y, y ∈ h ↔ y ∈ freshIfs g p) :
-    ∀ y, y ∈ h' ↔ y ∈ freshIfs g' p := removeChild_fresh g h p c g' h' hrun hp hh
+    ∃ g' h', removeChild g h p c = .ok (g', h') ∧ ∀ y, y ∈ h' ↔ y ∈ freshIfs g' p :=
+  removeChild_fresh g h p c hk hc h1 h2 hp hD hh
 
 /-- **handle_fresh (`unpeer`)**, both handles — holds since the repairs 59b2237 / 76b13f8 -/
 theorem handle_fresh_unpeer (g : G) (ha hb : List Nat) (a b i p : Nat) (g' : G) (ha' hb' : List Nat)
@@ -216,41 +236,128 @@ example : findPeering exPeer [3] [4] = some (3, 4) := by decide
 example : (unpeer exPeer [3] [4]).toOption.map (fun r => (r.1.nodes.map (·.id), r.2)) = some ([1, 2], [], []) := by decide
 example : ∀ p ∈ spPeers exG 14, exG.nbrs p .connects .cp = [] ∧ (cpDel exG p true).contains 20 = false := by decide
 
-/-! ## The declarative `owned` set, and where the code falls short of it (known finding)
 
-Full statement (`remove_exact`): for every reachable topology and every operation addressing element `x`,
-the result is `g.minus (owned g x)`.  The closed forms above are what the code deletes; they coincide with `owned`
-whenever every ServicePort peering an owned interface is reached by the disconnect loop, i.e. the interface is a
-first-level interface of the removed node / component.  They differ (a ServicePort survives with no peer) when a
-*sub-interface* is connected, when a service / link / child interface is removed directly:
-`C08:<op>:orphan-service-port` in known_findings.  The equality closed form = `owned` under the containment
-invariant is evaluated by the oracle on every generated case (brute force), and decided on instances here; it is
-not proved in general (`remove_exact_partial` below is the instance-level statement). -/
+/-! ## `remove_exact`: against the declarative ownership relation
 
-/-- on the example topology the code deletes exactly `owned` (node `10`, first-level interface `14` connected) -/
-theorem remove_exact_partial :
-    removeNodeApi exG 10 = .ok (exG.minus (owned exG 10)) ∧ sameSet (nodeApiDel exG 10) (owned exG 10) = true := by
-  constructor
-  · rfl
-  · decide
+`Below g x` is reflexive-transitive ownership (`children`: node → components and services, component → services,
+service → interfaces, interface → sub-interfaces); `OwnedG g x` adds the Link that joins an owned interface to exactly
+one other connection point; `Owned g x` adds the ServicePort at the other end of that Link
+(`Proofs/Lemmas/C08Spec.lean`, written without reference to the removal code).  `InvCP` and `InvPeer` are the
+decidable containment / peering invariants of API-built topologies; the driver evaluates them, together with the
+separation hypothesis, on every case of the correspondence run.  Each theorem: the call succeeds and returns the
+pre-state minus a set `D` whose members are exactly the owned elements. -/
 
-/-- a node `10` whose *sub-interface* `15` is connected to service `20` (port `21`, link `30`) -/
-def exOrphan : G :=
+/-- **remove_exact, graph layer** (`remove_ns_with_cps_and_links`) -/
+theorem remove_exact_ns (g : G) (s : Nat) (hI : InvCP g = true) (h : SepNs g [] s = true) :
+    ∃ D, removeNs g s = .ok (g.minus D) ∧ ∀ y, y ∈ D ↔ OwnedG g s y := by
+  have hc : g.cls? s = some .ns := by simp only [SepNs, Bool.and_eq_true, beq_iff_eq] at h; exact h.1.1.1
+  exact ⟨_, removeNs_exact g s h, mem_nsDel_iff_ownedG g hI s hc⟩
+
+/-- **remove_exact, graph layer** (`remove_component_with_nss_cps_and_links`) -/
+theorem remove_exact_comp (g : G) (c : Nat) (hI : InvCP g = true) (h : SepComp g [] c = true) :
+    ∃ D, removeComp g c = .ok (g.minus D) ∧ ∀ y, y ∈ D ↔ OwnedG g c y := by
+  have hc : g.cls? c = some .comp := by simp only [SepComp, Bool.and_eq_true, beq_iff_eq] at h; exact h.1.1.1
+  exact ⟨_, removeComp_exact g c h, mem_compDel_iff_ownedG g hI c hc⟩
+
+/-- **remove_exact, graph layer** (`remove_network_node_with_components_nss_cps_and_links`) -/
+theorem remove_exact_nodeG (g : G) (n : Nat) (hI : InvCP g = true) (h : SepNode g [] n = true) :
+    ∃ D, removeNodeG g n = .ok (g.minus D) ∧ ∀ y, y ∈ D ↔ OwnedG g n y := by
+  have hc : g.cls? n = some .node := by
+    simp only [SepNode, Bool.and_eq_true, beq_iff_eq] at h; exact h.1.1.1.1.1
+  exact ⟨_, removeNodeG_exact g n h, mem_nodeDel_iff_ownedG g hI n hc⟩
+
+/-- **remove_exact** (`Topology.remove_node`) -/
+theorem remove_exact_node (g : G) (n : Nat) (hI : InvCP g = true) (hP : InvPeer g = true)
+    (hk : (g.cls? n == some .node && g.kind? n != some kFacility) = true) (h : SepNodeApi g n = true) :
+    ∃ D, removeNodeApi g n = .ok (g.minus D) ∧ ∀ y, y ∈ D ↔ Owned g n y := by
+  have hc : g.cls? n = some .node := by simp only [Bool.and_eq_true, beq_iff_eq] at hk; exact hk.1
+  exact ⟨_, removeNodeApi_exact g n hk h, mem_nodeApiDel_iff_owned g hI hP n hc⟩
+
+/-- **remove_exact** (`Topology.remove_facility`) -/
+theorem remove_exact_facility (g : G) (n : Nat) (hI : InvCP g = true) (hP : InvPeer g = true)
+    (hk : (g.cls? n == some .node && g.kind? n == some kFacility) = true) (h : SepNodeApi g n = true) :
+    ∃ D, removeFacilityApi g n = .ok (g.minus D) ∧ ∀ y, y ∈ D ↔ Owned g n y := by
+  have hc : g.cls? n = some .node := by simp only [Bool.and_eq_true, beq_iff_eq] at hk; exact hk.1
+  exact ⟨_, removeFacilityApi_exact g n hk h, mem_nodeApiDel_iff_owned g hI hP n hc⟩
+
+/-- **remove_exact** (`Topology.remove_switch`) -/
+theorem remove_exact_switch (g : G) (n : Nat) (hI : InvCP g = true) (hP : InvPeer g = true)
+    (hk : (g.cls? n == some .node && g.kind? n == some kSwitch) = true) (h : SepNodeApi g n = true) :
+    ∃ D, removeSwitchApi g n = .ok (g.minus D) ∧ ∀ y, y ∈ D ↔ Owned g n y := by
+  have hc : g.cls? n = some .node := by simp only [Bool.and_eq_true, beq_iff_eq] at hk; exact hk.1
+  exact ⟨_, removeSwitchApi_exact g n hk h, mem_nodeApiDel_iff_owned g hI hP n hc⟩
+
+/-- **remove_exact** (`Node.remove_component`) -/
+theorem remove_exact_component (g : G) (c : Nat) (hI : InvCP g = true) (hP : InvPeer g = true) (h : SepCompApi g c = true) :
+    ∃ D, removeComponentApi g c = .ok (g.minus D) ∧ ∀ y, y ∈ D ↔ Owned g c y := by
+  have hc : g.cls? c = some .comp := by
+    simp only [SepCompApi, SepComp, Bool.and_eq_true, beq_iff_eq] at h; exact h.2.1.1.1
+  exact ⟨_, removeComponentApi_exact g c h, mem_compApiDel_iff_owned g hI hP c hc⟩
+
+/-- **remove_exact** (`Topology.remove_network_service`, `Node.remove_network_service`) -/
+theorem remove_exact_service (g : G) (s : Nat) (hI : InvCP g = true) (hP : InvPeer g = true) (h : SepNsApi g s = true) :
+    ∃ D, removeNsApi g s = .ok (g.minus D) ∧ ∀ y, y ∈ D ↔ Owned g s y := by
+  have hc : g.cls? s = some .ns := by
+    simp only [SepNsApi, SepNs, Bool.and_eq_true, beq_iff_eq] at h; exact h.2.1.1.1
+  exact ⟨_, removeNsApi_exact g s h, mem_nsApiDel_iff_owned g hI hP s hc⟩
+
+/-- **remove_exact** (`Topology.remove_link`): the link and the ServicePorts it peered -/
+theorem remove_exact_link (g : G) (l : Nat) (hP : InvPeer g = true) (hc : g.cls? l = some .link)
+    (h : SepSeq g [l] (spEnds g l) = true) :
+    ∃ D, removeLinkApi g l = .ok (g.minus D) ∧ ∀ y, y ∈ D ↔ OwnedLink g l y :=
+  ⟨_, removeLink_exact g l hc h, mem_linkApiDel_iff_owned g hP l hc⟩
+
+/-- **remove_exact** (`Interface.remove_child_interface`), with the handle -/
+theorem remove_exact_child (g : G) (hl : List Nat) (p c : Nat) (hP : InvPeer g = true)
+    (hk : g.kind? p = some kDedicatedPort) (hc : g.cls? c = some .cp) (hs : isSub g c = true)
+    (hkc : g.kind? c ≠ some kDedicatedPort)
+    (h1 : SepDiscSeq g [] (deepIfs g [c]) = true) (h2 : Sep g ((deepIfs g [c]).flatMap (discDel g)) c false = true) :
+    ∃ D, removeChild g hl p c = .ok (g.minus D, hl.filter (fun x => x != c)) ∧ ∀ y, y ∈ D ↔ Owned g c y := by
+  have hhas : g.has c = true := by
+    simp only [G.cls?, G.has] at hc ⊢; cases hf : g.find c <;> simp_all
+  exact ⟨_, removeChild_closed g hl p c hk hhas h1 h2, mem_childDel_iff_owned g hP c hc hs hkc⟩
+
+example : InvCP exG = true ∧ InvPeer exG = true := by decide
+example : InvCP exPeer = true ∧ InvPeer exPeer = true ∧ SepNsApi exPeer 1 = true ∧ sameSet (nsApiDel exPeer 1) [1, 3, 5, 4] = true := by decide
+
+/-- a node `10` whose *sub-interface* `15` is connected to service `20` (port `21`, link `30`): the ServicePort used to
+survive `remove_node` (known finding until 968b3fd); now it is deleted -/
+def exSub : G :=
   { nodes := [⟨10, .node, 0, "n"⟩, ⟨11, .comp, 0, "c"⟩, ⟨12, .ns, 0, "ovs"⟩, ⟨13, .cp, 4, "p1"⟩, ⟨15, .cp, 0, "ch"⟩,
               ⟨20, .ns, 0, "s"⟩, ⟨21, .cp, 1, "sp"⟩, ⟨30, .link, 0, "l"⟩],
     edges := [⟨10, 11, .has, ""⟩, ⟨11, 12, .has, ""⟩, ⟨12, 13, .connects, ""⟩, ⟨13, 15, .connects, ""⟩,
               ⟨20, 21, .connects, ""⟩, ⟨30, 15, .connects, ""⟩, ⟨30, 21, .connects, ""⟩] }
 
-/-- **Counterexample to the full statement** (`Topology.remove_node`): the ServicePort `21` created for the connected
-sub-interface belongs to `owned` but survives. Replayed on the implementation by corpus/C08/known_orphan_port_subinterface.json. -/
-theorem remove_exact_counterexample :
-    (owned exOrphan 10).contains 21 = true ∧
-    (removeNodeApi exOrphan 10).toOption.map (fun g => g.has 21) = some true := by
-  constructor <;> decide
+example : InvCP exSub = true ∧ InvPeer exSub = true ∧ SepNodeApi exSub 10 = true := by decide
+example : (removeNodeApi exSub 10).toOption.map (fun g => g.nodes.map (·.id)) = some [20] := by decide
+example : sameSet (nodeApiDel exSub 10) (owned exSub 10) = true := by decide
 
-/-- the same for `Topology.remove_link` of a link created by `connect_interface` (link `30` of `exG`, port `21`) -/
-theorem removeLink_orphan_counterexample :
-    (owned exG 30).contains 21 = true ∧ (removeLinkG exG 30).toOption.map (fun g => g.has 21) = some true := by
-  constructor <;> decide
+/-! ## Shared links with several ends inside the removed element
+
+The separation hypothesis of the theorems above excludes a link with other than two ends that has two ends inside
+what is removed.  What the code does there, exactly and without any hypothesis on links: each
+`remove_cp_and_links` call deletes the links of the family that are still present and have exactly two *surviving*
+ends (`cpDelA`, evaluated on the pre-state with the set `A` deleted so far).  Proved for the single step and for the
+interface loop of a service (`seqDelA` is the fold over the pre-state); the component / node levels and the declarative
+form "a link that joined at least two interfaces goes iff at most one of them survives" are not proved
+(`_partial`), they are covered by the correspondence and the oracle only. -/
+
+/-- the general sequential step: no hypothesis on links -/
+theorem removeCp_after_general (g : G) (A : List Nat) (i : Nat) (dp : Bool) (hi : g.has i = true) (h : SepFam g A i = true) :
+    removeCp (g.minus A) i dp = .ok (g.minus (A ++ cpDelA g A i dp)) := removeCp_after' g A i dp hi h
+
+/-- `remove_ns_with_cps_and_links` with shared links having any number of ends inside the service -/
+theorem removeNs_exact_general_partial (g : G) (s : Nat) (hc : g.cls? s = some .ns)
+    (h : SepFamSeq g [s] (g.nbrs s .connects .cp) = true) :
+    removeNs g s = .ok (g.minus (seqDelA g [s] (g.nbrs s .connects .cp))) := removeNs_general g s hc h
+
+/-- service `1` with ports `2`, `3`; link `9` joins `2`, `3` and the far interface `4`: two of its three ends are inside -/
+def exShared : G :=
+  { nodes := [⟨1, .ns, 0, "s"⟩, ⟨2, .cp, 0, "a"⟩, ⟨3, .cp, 0, "b"⟩, ⟨4, .cp, 0, "far"⟩, ⟨9, .link, 0, "l"⟩],
+    edges := [⟨1, 2, .connects, ""⟩, ⟨1, 3, .connects, ""⟩, ⟨9, 2, .connects, ""⟩, ⟨9, 3, .connects, ""⟩, ⟨9, 4, .connects, ""⟩] }
+
+/-- the closed-form hypothesis fails here, the general one holds, and the link is deleted when its second inside end goes -/
+example : SepNs exShared [] 1 = false ∧ SepFamSeq exShared [1] (exShared.nbrs 1 .connects .cp) = true ∧
+    seqDelA exShared [1] (exShared.nbrs 1 .connects .cp) = [1, 2, 3, 9] := by decide
 
 end FimVerif.C08
